@@ -136,8 +136,8 @@ PROPS["C03"] = {
 }
 PROPS["C11"] = {
     "level": "proof", "title": "Exactly the needed files are on disk: nothing live deleted, nothing dead kept",
-    "lean_modules": ["Rain.Props.C11", "Rain.Props.Durable"], "components": ["lsm"], "sig_prefixes": ["c11:", "c09:"],
-    "technique": "Lean 4 proofs over the retention model (a deletion pass keeps every file of every linked version, of running outputs and every WAL/manifest recovery needs; every released reference unlinks its version; in a quiescent reader-free state a pass leaves exactly the current version's tables; kernel-checked witness of the repaired leak) + directory listing vs state dump and vs the model's deletion pass after every quiescence/reopen, with readers and iterators held across compactions",
+    "lean_modules": ["Rain.Props.C11", "Rain.Props.Durable"], "components": ["lsm", "c02"], "sig_prefixes": ["c11:", "c09:"],
+    "technique": "Lean 4 proofs over the retention model and the durability monitor (C11_monitored_removal_keeps_recovery: a removal the monitor accepts never changes what recovery reads) — every removal in the recorded filesystem operation streams of real histories is evaluated by the monitor — plus: Lean 4 proofs over the retention model (a deletion pass keeps every file of every linked version, of running outputs and every WAL/manifest recovery needs; every released reference unlinks its version; in a quiescent reader-free state a pass leaves exactly the current version's tables; kernel-checked witness of the repaired leak) + directory listing vs state dump and vs the model's deletion pass after every quiescence/reopen, with readers and iterators held across compactions",
     "level_text": "Machine-checked proofs over the model of the version list with reference counts, tables_in_use and remove_obsolete_files for every sequence of acquisitions, releases, installations, outputs and deletion passes. Tied to the code on every run: after every quiescent point and reopen of generated histories (snapshots and iterators held across flushes, compactions and deletion passes) the directory is compared with the dumped state (versions, reference counts, tables in use, WAL / manifest numbers); with no reader alive a deletion pass is forced and the directory must equal the model's clean() of the dumped state; live tables must never be missing. Crash leftovers (orphan tables, stale manifests, temp files) are covered by the C02 crash enumerator's post-recovery checks.",
     "design_ref": "5 (C11)", "trusted_base": LSM_TB,
     "assumptions": ["the reference count the model calls `refs` is Arc::strong_count minus the version set's own references (list link, current_version field), as dumped by the hook",
@@ -151,7 +151,7 @@ DUR_TB = DB_TB + [
 ]
 PROPS["C02"] = {
     "level": "proof", "title": "Acknowledged writes survive a crash at any point; batches are all-or-nothing",
-    "lean_modules": ["Rain.Props.Durable", "Rain.Props.C12"], "components": ["c02"], "sig_prefixes": ["c02:", "c09:"],
+    "lean_modules": ["Rain.Props.Durable", "Rain.Props.C12"], "components": ["c02"], "sig_prefixes": ["c02:", "c09:", "c11:file-needed"],
     "technique": "Lean 4 proof that every prefix of an operation stream accepted by the durability monitor recovers to exactly the batches whose WAL append is in the prefix (C02_every_prefix_recovers) + the monitor evaluated on every recorded real stream + crash enumeration of EVERY prefix (and of prefixes of the recovery of crash images) on the real code with an acknowledged/in-flight oracle",
     "level_text": "Machine-checked proof over the durability model (persistent image as complete records, recovery function, ordering monitor) for every monitored stream and every prefix, i.e. every crash point, including crashes during recovery and repeated crash-recover rounds (recovery's operations are part of the stream). Tied to the code on every run: the stream of mutating filesystem operations recorded by SimFs for generated histories (writes, multi-key batches, values spanning several 32 KiB log blocks, flushes, compactions, manifest switches, reopens with both log-reuse settings) is translated to model operations and must be accepted by the monitor; independently every prefix of the stream (an even sample for long streams, always around renames/removals/creations) becomes a crash image that is reopened on the real code, compared with acknowledged +/- in-flight contents, written to, closed, reopened; crashes inside the recovery of crash images are enumerated one level deep.",
     "design_ref": "5 (C02)", "trusted_base": DUR_TB,
@@ -167,7 +167,7 @@ PROPS["C16"] = {
 }
 PROPS["C08"] = {
     "level": "proof", "title": "I/O failures are reported, never swallowed; nothing acknowledged is lost",
-    "lean_modules": ["Rain.Props.Durable", "Rain.Props.Proto"], "components": ["c08"], "sig_prefixes": ["c08:", "c09:"],
+    "lean_modules": ["Rain.Props.Durable", "Rain.Props.Proto"], "components": ["c08"], "sig_prefixes": ["c08:", "c09:", "c11:file-needed"],
     "technique": "Lean 4: a failed filesystem call is an absent operation of the durability model, so the image stays safe for the acknowledged batches (step_safe / C16_incomplete_operation_changes_nothing), write-ahead order at protocol level (C05_wal_before_memtable) + exhaustive single-fault enumeration on the real code (every call position, transient and sticky) with a possible-values oracle, and the stream of completed operations under faults checked by the durability monitor",
     "level_text": "The proof part is partial by nature: it shows that the persistent image cannot be harmed by operations that fail (they are absent from the monitored stream) and that the ordering discipline keeps every acknowledged batch recoverable; whether each API call REPORTS the failure is decided on the real code by fault enumeration: for generated histories every position of the filesystem call stream (create, write/append, rename, remove, open-for-read, size, list, lock) is armed in turn, once and persistently; every API result is recorded (Ok writes must be visible to every later successful read, Err writes may or may not be applied, failed batches all-or-nothing), then the fault is removed, the database reopened and compared; the completed-operation streams of fault runs are fed to the durability monitor. Two findings (read errors swallowed by table iterators) are recorded as known findings.",
     "design_ref": "5 (C08)", "trusted_base": DUR_TB,
